@@ -181,6 +181,7 @@ type hookPlan struct {
 	swallow   bool   // the hook tolerates a failed audit block (returns nil)
 	blocks    []blockCall
 	swallowed int
+	leaked    bool // a transaction was still open when the operation returned inside db.Connection
 	rec       *recdrv.Recorder
 	log       []hookCall
 	fired     bool
@@ -216,7 +217,7 @@ func hook(tx *gorm.DB, model, name string) error {
 		// depend on scheduling.
 		p.fired = true
 		p.cancel()
-		for w := 0; w < 20000 && p.rec.OpenTx() != 0; w++ {
+		for w := 0; w < 500000 && p.rec.OpenTx() != 0; w++ {
 			time.Sleep(20 * time.Microsecond)
 		}
 		return nil
@@ -714,6 +715,16 @@ func (op Op) exec(db *gorm.DB) *gorm.DB {
 		var res *gorm.DB
 		err := db.Connection(func(tx *gorm.DB) error {
 			res = op.exec1(tx)
+			// Connection now closes the connection, which waits for ever for a
+			// transaction the operation left open on it. That state is detected
+			// here (no clock involved); ending the context lets database/sql roll
+			// the transaction back so that Connection can return.
+			if p := plan; p != nil && p.rec.OpenTx() != 0 {
+				p.leaked = true
+				if p.cancel != nil {
+					p.cancel()
+				}
+			}
 			return nil
 		})
 		if res == nil {
@@ -1262,25 +1273,15 @@ type runResult struct {
 	swallowed int
 	audits    []string // audits.msg after the operation
 	histErr   string
-	hung      bool // the operation did not return within opTimeout
+	hung      bool // inside db.Connection the operation returned with its transaction still open (Connection would never return)
 	openTx    int
 	inUse     int
 	fired     bool
 }
 
-// opTimeout bounds one operation: a fault-free or singly faulted write on an
-// in-memory database takes milliseconds; one that has not returned after this
-// long is stuck (e.g. db.Connection waiting to close a connection on which the
-// operation left its transaction open).
-const opTimeout = 20 * time.Second
-
 func runOnce(base *content, op Op, f fault) (r runResult) {
 	d := freshDB(base, op)
-	defer func() {
-		if !r.hung { // closing the pool of a stuck operation could block as well
-			d.Close()
-		}
-	}()
+	defer d.Close()
 	// history before the operation: sessions derived from the default handle
 	for i, ps := range op.Pre {
 		s := d.DB.Session(sessionOptions[ps.Opt]())
@@ -1326,7 +1327,7 @@ func runOnce(base *content, op Op, f fault) (r runResult) {
 		p.cancelAt = f.idx
 	}
 	handle := d.DB
-	if op.Ctx {
+	if op.Ctx || op.OnConn { // OnConn: a context to end, should the operation leak its transaction
 		ctx, cancel := context.WithCancel(context.Background())
 		defer cancel()
 		p.cancel = cancel
@@ -1352,28 +1353,15 @@ func runOnce(base *content, op Op, f fault) (r runResult) {
 		}
 		return nil
 	})
-	done := make(chan *gorm.DB, 1)
-	go func() { done <- op.exec(handle) }()
-	var res *gorm.DB
-	select {
-	case res = <-done:
-	case <-time.After(opTimeout):
-		plan = nil
-		r.hung = true
-		r.events = d.Rec.Events()
-		r.hooks = p.log
-		r.openTx = d.Rec.OpenTx()
-		r.inUse = d.SQL.Stats().InUse
-		r.fired = true
-		return r
-	}
+	res := op.exec(handle)
+	r.hung = p.leaked
 	plan = nil
 	d.Rec.SetRowsFault(nil)
 	d.Rec.TrackRows(false)
 	if f.kind == "cancel" {
 		// the background rollback of database/sql releases the connection
 		// shortly after the transaction is marked finished
-		for w := 0; w < 20000 && (d.Rec.OpenTx() != 0 || d.SQL.Stats().InUse != 0); w++ {
+		for w := 0; w < 500000 && (d.Rec.OpenTx() != 0 || d.SQL.Stats().InUse != 0); w++ {
 			time.Sleep(20 * time.Microsecond)
 		}
 	}
@@ -1515,7 +1503,7 @@ func checkCase(t fataler, c Case, base *content) {
 		t.Fatalf("C05 violated: %s\n  case: %s", ref.histErr, desc)
 	}
 	if ref.hung {
-		t.Fatalf("C05 violated: the fault-free operation did not return within %v (%d transaction(s) open, %d connection(s) checked out)\n  case: %s\n  driver calls:\n%s", opTimeout, ref.openTx, ref.inUse, desc, eventLog(ref.events))
+		t.Fatalf("C05 violated: the fault-free operation returned with its transaction still open inside db.Connection (Connection then waits for ever to release the connection)\n  case: %s\n  driver calls:\n%s", desc, eventLog(ref.events))
 	}
 	if ref.err != nil {
 		t.Fatalf("C05 violated: the fault-free operation failed: %v\n  case: %s\n  driver calls:\n%s", ref.err, desc, eventLog(ref.events))
@@ -1584,7 +1572,7 @@ func checkCase(t fataler, c Case, base *content) {
 			t.Fatalf("C05 violated: %s%s", r.histErr, where)
 		}
 		if r.hung {
-			t.Fatalf("C05 violated: the failed operation did not return within %v: %d transaction(s) still open, %d connection(s) still checked out (an unfinished transaction blocks the release of its connection)%s", opTimeout, r.openTx, r.inUse, where)
+			t.Fatalf("C05 violated: the failed operation returned with its transaction still open inside db.Connection (Connection then waits for ever to release the connection)%s", where)
 		}
 		if !r.fired {
 			t.Fatalf("harness: the planned fault was never reached (the operation is not deterministic)%s", where)
@@ -1696,7 +1684,7 @@ func checkCase(t fataler, c Case, base *content) {
 		where := fmt.Sprintf("\n  case: %s\n  fault: %s (%s) of N=%d driver calls, H=%d hook invocations\n  driver calls of the run:\n%s  hooks of the run: %v",
 			desc, f, posLabel, N, H, eventLog(r.events), hookNames(r.hooks))
 		if r.hung {
-			t.Fatalf("C05 violated: the operation whose context was cancelled did not return within %v: %d transaction(s) still open, %d connection(s) still checked out%s", opTimeout, r.openTx, r.inUse, where)
+			t.Fatalf("C05 violated: the operation whose context was cancelled returned with its transaction still open inside db.Connection%s", where)
 		}
 		if !r.fired {
 			t.Fatalf("harness: the planned hook invocation was never reached (the operation is not deterministic)%s", where)
@@ -1861,7 +1849,7 @@ func checkNatural(t fataler, c Case, base *content) {
 	desc := c.String()
 	r := runOnce(base, c.Op, fault{})
 	if r.hung {
-		t.Fatalf("C05 violated: the operation (which fails by itself on a unique index) did not return within %v: %d transaction(s) open, %d connection(s) checked out\n  case: %s\n  driver calls:\n%s", opTimeout, r.openTx, r.inUse, desc, eventLog(r.events))
+		t.Fatalf("C05 violated: the operation (which fails by itself on a unique index) returned with its transaction still open inside db.Connection\n  case: %s\n  driver calls:\n%s", desc, eventLog(r.events))
 	}
 	fe := faultableEvents(r.events)
 	tablesTouched := map[string]bool{}
